@@ -28,36 +28,38 @@ RULE = ('BFS over operation histories from every well-formed tree of the family 
 ASSUMPTIONS = [
     'collision roles are not in the alphabets (their inversion cannot be written)',
     'for the random key only the invariants (content, branch multiset per node, concept first) are asserted; its answers are scripted, not seeded',
-    'keys explored: none, original, alphanumeric, canonical, random (scripted), and the tool\'s inverted-last',
-    'depth of operation histories: 2 (quick) / 3 (thorough)',
+    'keys explored: none, original, alphanumeric, canonical, random (3 scripted answer sequences), and the tool\'s inverted-last; the quick tier drops original and two of the random scripts',
+    'depth of operation histories: 2 (quick) / 3 (thorough) from the decoded graph, one less from its marker-less twin and its deep copy',
 ]
 
-T.ALPHABETS['c05'] = {'concepts': ['x'], 'roles': [':op2', ':op10~e.1', ':r-of', ':op1-of~e.2'], 'atoms': ['k', '"s"~2'], 'refs': 'all+aligned0'}
+T.ALPHABETS['c05x'] = {'concepts': ['x'], 'roles': [':op2', ':op10~e.1', ':r-of', ':op1-of~e.2'], 'atoms': ['k', '"s"~2'], 'refs': 'all+aligned0'}
+T.ALPHABETS['c05'] = {'concepts': [T.ABSENT, 'x'], 'roles': [':op2', ':op10~e.1', ':r-of', ':op1-of~e.2'], 'atoms': ['k', '"s"~2'], 'refs': 'all+aligned0'}
 T.ALPHABETS['c05amr'] = {'concepts': ['x'], 'roles': [':ARG1', ':ARG0-of~e.2', ':consist-of', ':mod-of'], 'atoms': ['k'], 'refs': 'all'}
 T.ALPHABETS['c05mini'] = {'concepts': ['x'], 'roles': [':ARG1', ':consist-of-of', ':op10', ':op2~1'], 'atoms': ['k'], 'refs': 'all'}
 T.ALPHABETS['c05n'] = {'concepts': [T.ABSENT, 'x'], 'roles': [':op2', ':op10', ':r-of'], 'atoms': ['k'], 'refs': 'all'}
 
 KEYS = ['none', 'original', 'alphanumeric', 'canonical', 'inverted-last', 'random0', 'random1', 'random2']
+KEYS_QUICK = ['none', 'alphanumeric', 'canonical', 'inverted-last', 'random1']
 
 
 def shards(tier, seed):
     out = []
     q = tier == 'quick'
     d = 2 if q else 3
-    out += T.shard_list(3, 2, 3, 'c05', pin=4, extra={'sub': 'bfs', 'depth': d, 'model': 'DEFAULT', 'bounds': f'op histories of depth {d} from TREE(3,2,3); depth {d - 1} from TREE(3,3,3) (DEFAULT, AMR roles; quick: VERIF_SEED-chosen half) and TREE(3,2,3) MINI roles; depth 1 from TREE(4,4,3) narrow (quick: one eighth)'})
-    mid = T.shard_list(3, 3, 3, 'c05', pin=3, extra={'sub': 'bfs', 'depth': d - 1, 'model': 'DEFAULT', 'bounds': ''})
-    out += mid[seed % 2::2] if q else mid
-    amr = T.shard_list(3, 3, 3, 'c05amr', pin=3, extra={'sub': 'bfs', 'depth': d - 1, 'model': 'AMR', 'bounds': ''})
-    out += amr[seed % 2::2] if q else amr
-    out += T.shard_list(3, 2, 3, 'c05mini', extra={'sub': 'bfs', 'depth': d - 1, 'model': 'MINI', 'bounds': ''})
-    big = T.shard_list(4, 4, 3, 'c05n', pin=3, extra={'sub': 'bfs', 'depth': 1, 'model': 'DEFAULT', 'bounds': ''})
+    out += T.shard_list(3, 2, 3, 'c05', pin=4, extra={'sub': 'bfs', 'q': int(q), 'depth': d, 'model': 'DEFAULT', 'bounds': f'op histories of depth {d} from TREE(3,2,3); depth {d - 1} from TREE(3,3,3) (DEFAULT, AMR roles; quick: VERIF_SEED-chosen quarter) and TREE(3,2,3) MINI roles; depth 1 from TREE(4,4,3) narrow (quick: one eighth)'})
+    mid = T.shard_list(3, 3, 3, 'c05x', pin=3, extra={'sub': 'bfs', 'q': int(q), 'depth': d - 1, 'model': 'DEFAULT', 'bounds': ''})
+    out += mid[seed % 4::4] if q else mid
+    amr = T.shard_list(3, 3, 3, 'c05amr', pin=3, extra={'sub': 'bfs', 'q': int(q), 'depth': d - 1, 'model': 'AMR', 'bounds': ''})
+    out += amr[seed % 4::4] if q else amr
+    out += T.shard_list(3, 2, 3, 'c05mini', extra={'sub': 'bfs', 'q': int(q), 'depth': d - 1, 'model': 'MINI', 'bounds': ''})
+    big = T.shard_list(4, 4, 3, 'c05n', pin=3, extra={'sub': 'bfs', 'q': int(q), 'depth': 1, 'model': 'DEFAULT', 'bounds': ''})
     out += big[seed % 8::8] if q else big
     return out
 
 
 def cases(shard):
     for t in T.shard_trees(shard):
-        yield {'t': t, 'depth': shard['depth'], 'model': shard['model']}
+        yield {'t': t, 'depth': shard['depth'], 'model': shard['model'], 'q': shard.get('q', 0)}
 
 
 # ---------------------------------------------------------------- reference sort keys
@@ -180,19 +182,31 @@ def check(case, ctx):
     variables = sorted(g0.variables())
     base_triples = list(g0.triples)
     wants = {v: RI.content(base_triples, v, rm) for v in variables}
-    inits = [('decoded', g0), ('markerless', Graph(base_triples, top=g0.top))]
-    ops = [('R', k, None) for k in KEYS] + [('A', k, af) for k in KEYS for af in (False, True)] + [('T', v, None) for v in variables]
+    inits = [('decoded', g0), ('markerless', Graph(base_triples, top=g0.top)), ('decoded+deepcopy', copy.deepcopy(g0))]
+    # a client may have used the sort keys of other models on the same roles before (shared caches must not matter)
+    for other in ('DEFAULT', 'AMR', 'MINI'):
+        if other != name:
+            om = M.get(other)[0]
+            for tr in base_triples:
+                om.canonical_order(tr[1])
+                om.alphanumeric_order(tr[1])
+                om.is_role_inverted(tr[1])
+    keys = KEYS_QUICK if case.get('q') else KEYS
+    ops = [('R', k, None) for k in keys] + [('A', k, af) for k in keys for af in (False, True)] + [('T', v, None) for v in variables]
     seen = set()
     frontier = []
     for label, g in inits:
         seen.add(_snapshot(g))
         frontier.append(([label], g))
+    shallow = {'markerless', 'decoded+deepcopy'}      # these initial variants are explored one level less deep
     depth = 0
     real_random = pmodel.random
     try:
         while depth < case['depth']:
             nxt = []
             for hist, g in frontier:
+                if hist[0] in shallow and depth >= max(1, case['depth'] - 1):
+                    continue
                 for op in ops:
                     kind, arg, af = op
                     before = _snapshot(g)
